@@ -101,10 +101,7 @@ struct SIMDVector<int32_t,simd_abi::avx512> {
         mask_to_array(mask,maska);
         for (FASTOR_INDEX i=0; i<Size; ++i) {
             if (maska[i] == -1) {
-                a[Size - i - 1] = ((const scalar_value_type*)&value)[Size - i - 1];
-            }
-            else {
-                a[Size - i - 1] = 0;
+                a[Size - i - 1] = ((const internal::int32_alias_t*)&value)[Size - i - 1];
             }
         }
         unused(Aligned);
@@ -456,10 +453,7 @@ struct SIMDVector<int32_t,simd_abi::avx> {
         mask_to_array(mask,maska);
         for (FASTOR_INDEX i=0; i<Size; ++i) {
             if (maska[i] == -1) {
-                a[Size - i - 1] = ((const scalar_value_type*)&value)[Size - i - 1];
-            }
-            else {
-                a[Size - i - 1] = 0;
+                a[Size - i - 1] = ((const internal::int32_alias_t*)&value)[Size - i - 1];
             }
         }
         unused(Aligned);
@@ -776,10 +770,7 @@ struct SIMDVector<int32_t,simd_abi::sse> {
         mask_to_array(mask,maska);
         for (FASTOR_INDEX i=0; i<Size; ++i) {
             if (maska[i] == -1) {
-                a[Size - i - 1] = ((const scalar_value_type*)&value)[Size - i - 1];
-            }
-            else {
-                a[Size - i - 1] = 0;
+                a[Size - i - 1] = ((const internal::int32_alias_t*)&value)[Size - i - 1];
             }
         }
         unused(Aligned);
